@@ -29,8 +29,13 @@ from bind_export import cN, cbool  # noqa: E402
 from lxml import etree as LET  # noqa: E402
 from xsdata.formats.dataclass.parsers.handlers import XmlEventHandler  # noqa: E402
 
-F3_DOCS = [('<AW xmlns:p="urn:p" k="p:v"><c m="p:n"/></AW>', '<AW xmlns:q="urn:p" k="p:v"><c m="p:n"/></AW>'),
+F3_DOCS = [('<AW xmlns:p="urn:p" k="p:v" h="p://x"><c m="p:n" h="p://y"/></AW>', '<AW xmlns:q="urn:p" k="p:v" h="p://x"><c m="p:n" h="p://y"/></AW>'),
            ('<AW xmlns:p="urn:p" k="p:v"/>', '<AW k="p:v"/>')]
+
+
+# attribute order on an Attributes map / generic element with several entries (rare in generated instances)
+ATTR_DOCS = [('<AW a="1" b="2" c="3" d="4"><c x="1" y="2" z="3"/></AW>', '<AW d="4" c="3" b="2" a="1"><c z="3" x="1" y="2"/></AW>'),
+             ('<AW xmlns:p="urn:p" p:a="1" b="p:2" c="3"/>', '<AW xmlns:p="urn:p" c="3" b="p:2" p:a="1"/>')]
 
 
 def element_only(e):
@@ -77,7 +82,96 @@ def pair(model, info, cfg, kind, d0, d1, what=None):
     return case
 
 
+def unqualified_qname_content(xml_bytes):
+    """an unprefixed xsi:type value with no default namespace in scope denotes a name in NO namespace; such a value
+    cannot be spelled under a default namespace, so the 'default_ns' rewrite (which leaves it alone) would change
+    its meaning - the rewriter's limitation, not the parser's"""
+    root = LET.fromstring(xml_bytes)
+    for e in root.iter():
+        if not isinstance(e.tag, str):
+            continue
+        v = e.attrib.get(X.XSI_TYPE)
+        if v is not None and ":" not in v.strip() and not e.nsmap.get(None):
+            return True
+    return False
+
+
+def oracle_job(job):
+    """the end-to-end rewrite oracle (formerly op 'rewrite' of impl_binding.py): compositions of meaning-preserving
+    rewrites, both handlers, equal objects"""
+    import genmodels as G
+    import impl_binding_lib as B
+    out = []
+    mod = G.load_module(job["src"], job["name"])
+    from xsdata.formats.dataclass.context import XmlContext
+    from xsdata.formats.dataclass.parsers import XmlParser
+    from xsdata.formats.dataclass.serializers import XmlSerializer
+    from xsdata.formats.dataclass.parsers.handlers import LxmlEventHandler
+    ctx = XmlContext()
+    objs = [G.build_instance(mod.__dict__, r) for r in job["instances"]]
+    handlers = {"native": XmlEventHandler, "lxml": LxmlEventHandler}
+    for case in job["cases"]:
+        obj = objs[case["i"]]
+        import signal
+        signal.alarm(30)
+        try:
+            rr = random.Random(case["seed"])
+            xml = XmlSerializer(context=ctx).render(obj)
+            base = XmlParser(context=ctx).from_string(xml, type(obj))
+            mode = case["mode"]
+            no_default = unqualified_qname_content(xml.encode())
+            trials = []
+            for _ in range(case.get("n", 3)):
+                kinds = [k for k in X.KINDS if rr.random() < 0.45 and k not in ("ws_between_children", "value_ws")]
+                if rr.random() < 0.3 or ("xsi:type" in xml and not trials):
+                    kinds = sorted(set(kinds) | {"default_ns", "qname_attrs"})
+                if no_default and "default_ns" in kinds:
+                    kinds.remove("default_ns")
+                eo = None
+                pad = False
+                if mode == "element_only":
+                    kinds.append("ws_between_children")
+                    eo = element_only
+                if mode == "value_ws":
+                    kinds.append("value_ws")
+                    pad = True
+                doc = X.rewrite(xml, kinds, rr, element_only=eo, pad_values=pad)
+                if mode == "general" and X.infoset(doc) != X.infoset(xml.encode()):
+                    trials.append({"kinds": kinds, "infoset_changed": True, "doc": doc.decode("utf-8", "replace")[:2000], "handler": "-"})
+                    continue
+                for hname, h in handlers.items():
+                    t = {"kinds": kinds, "handler": hname}
+                    try:
+                        back = XmlParser(context=ctx, handler=h).from_bytes(doc, type(obj))
+                        d = B.eq(base, back)
+                        t["ok"] = d is None
+                        if d is not None:
+                            t["why"] = "differs at " + d
+                            t["doc"] = doc.decode("utf-8", "replace")[:3000] if not doc.startswith(b"\xff\xfe") else doc.decode("utf-16")[:3000]
+                            t["orig"] = xml[:3000]
+                    except Exception as e:  # noqa
+                        t["ok"] = False
+                        t["why"] = type(e).__name__ + ": " + str(e)[:200]
+                        t["doc"] = doc.decode("utf-8", "replace")[:3000]
+                        t["orig"] = xml[:3000]
+                    trials.append(t)
+            out.append({"trials": trials})
+        except IP.Timeout:
+            out.append({"exc": "Timeout"})
+        except Exception as e:  # noqa
+            out.append({"exc": type(e).__name__, "msg": str(e)[:300], "tb": traceback.format_exc()[-600:]})
+        finally:
+            signal.alarm(0)
+    sys.modules.pop(job["name"], None)
+    return {"results": out}
+
+
 def run_job(job):
+    if job.get("oracle"):
+        try:
+            return oracle_job(job)
+        except Exception as e:  # noqa
+            return {"load_error": type(e).__name__ + ": " + str(e)[:300], "tb": traceback.format_exc()[-800:]}
     spec = job["model"]
     cases = []
     if "c08" in spec:
@@ -87,6 +181,8 @@ def run_job(job):
                 "universe": model.ex.universe_term(), "nodefault": model.nodefault_term(), "root": cN(model.ex.cid[model.root])}
         for d0, d1 in F3_DOCS:
             cases.append(pair(model, info, (True, False, False), "f3", d0.encode(), d1.encode()))
+        for d0, d1 in ATTR_DOCS:
+            cases.append(pair(model, info, (True, False, False), "attrs", d0.encode(), d1.encode()))
         info["conv"] = model.ex.rec.table_term()
         model.close()
         return dict(info, cases=cases)
